@@ -83,6 +83,20 @@ class _PendingThrow(Exception):
         self.value = value
 
 
+class _BoundHostFunction:
+    """What bind() returns for a host function: the function with leading
+    arguments fixed (for a method, the first of them is its this)."""
+
+    __slots__ = ("target", "fixed_args")
+
+    def __init__(self, target: Any, fixed_args: Tuple) -> None:
+        self.target = target
+        self.fixed_args = fixed_args
+
+    def __call__(self, *args: Any) -> Any:
+        return self.target(*self.fixed_args, *args)
+
+
 @dataclass
 class ClosureCell:
     """A cell for closure variable - allows sharing between scopes."""
@@ -1654,17 +1668,13 @@ class VM:
             bound_this = args[0] if args else UNDEFINED
             bound_args = list(args[1:]) if len(args) > 1 else []
 
+            if isinstance(fn, _BoundHostFunction):
+                # Binding a bound function: its this stays, the arguments add up,
+                # and the new function calls the original one directly
+                return _BoundHostFunction(fn.target, fn.fixed_args + tuple(bound_args))
             if isinstance(fn, JSBoundMethod):
-
-                def bound(*call_args):
-                    return fn(bound_this, *bound_args, *call_args)
-
-            else:
-
-                def bound(*call_args):
-                    return fn(*bound_args, *call_args)
-
-            return bound
+                return _BoundHostFunction(fn, (bound_this, *bound_args))
+            return _BoundHostFunction(fn, tuple(bound_args))
 
         methods = {
             "call": call_fn,
